@@ -79,8 +79,8 @@ func init() {
 				n = 80000
 			}
 			return fw.Meta{N: n, Level: "exploration", Chunk: 50, CaseTimeoutS: 120, MinNT: 300,
-				Rule: "seeded WriteNext programs with arbitrary keys (unsorted, repeated, empty, length-changing around rejected writes, immediate retries of failed keys) x a fault schedule (any call may fail cleanly at the data-append or the index-append step through the tag-guarded writer hook) x 4x4 compression x write buffers {16,37,4096,default}. Model: list of accepted pairs; each call's result class (ordering error / injected error / nil) is compared, after Close the table is read back (Scan+Get) and MetaData (count, nil count, min/max key, index/data/total bytes vs real file sizes) is compared. Non-trivial: >=1 ordering rejection, >=1 injected fault and >=2 accepted pairs; distinct by program hash",
-				MinObs: map[string]int64{"calls_compared": 30000, "ordering_rejections": 3000, "injected_data_faults": 500, "injected_index_faults": 500, "retries_after_fault": 300, "metadata_checked": 2000, "index_fault_on_nil_value": 20},
+				Rule:        "seeded WriteNext programs with arbitrary keys (unsorted, repeated, empty, length-changing around rejected writes, immediate retries of failed keys) x a fault schedule (any call may fail cleanly at the data-append or the index-append step through the tag-guarded writer hook) x 4x4 compression x write buffers {16,37,4096,default}. Model: list of accepted pairs; each call's result class (ordering error / injected error / nil) is compared, after Close the table is read back (Scan+Get) and MetaData (count, nil count, min/max key, index/data/total bytes vs real file sizes) is compared. Non-trivial: >=1 ordering rejection, >=1 injected fault and >=2 accepted pairs; distinct by program hash",
+				MinObs:      map[string]int64{"calls_compared": 30000, "ordering_rejections": 3000, "injected_data_faults": 500, "injected_index_faults": 500, "retries_after_fault": 300, "metadata_checked": 2000, "index_fault_on_nil_value": 20},
 				Assumptions: []string{"injected failures are clean (the failing writer is not touched), as in the repository's own failing-writer test double"},
 			}
 		},
